@@ -395,8 +395,25 @@ func (vc *VC) execCall(ins *ssa.Call) {
 		vc.vals[ins] = vc.resultVal(ins, h)
 		return
 	default:
+		// a never-reassigned package-level function variable is a static call to its initial value
+		if u, ok := cc.Value.(*ssa.UnOp); ok && u.Op == token.MUL {
+			if g, ok := u.X.(*ssa.Global); ok {
+				vc.e.scanGlobals()
+				if gi := vc.e.constGlob[g]; gi != nil && gi.constant && gi.fn != nil {
+					var args []*Val
+					for _, a := range cc.Args {
+						args = append(args, vc.val(a))
+					}
+					vc.callFunction(ins, gi.fn, args)
+					return
+				}
+			}
+		}
 		// dynamic function value
 		fv := vc.val(cc.Value)
+		if vc.splitFuncCall(ins, fv) {
+			return
+		}
 		vc.oblige("safety.nil", vc.cur.pc, sNot(sEq(fv.C[0], "0")), ins.Pos(), "call of nil function value")
 		vc.note("call through function value abstracted (havoc)")
 		vc.havocAll(h, nil)
@@ -847,5 +864,70 @@ func (vc *VC) devirtualize(ins *ssa.Call, recv *Val, args []*Val) bool {
 		return true
 	}
 	vc.vals[ins] = vc.iteVals(conds, results, last.T)
+	return true
+}
+
+// splitFuncCall: a call through a function value is split over the functions this VC knows by identity
+// (function constants used in the function, and `isfunc(x, f)` in contracts): under `id == id(f)` the call is a
+// static call of f; any other value is havocked.
+func (vc *VC) splitFuncCall(ins *ssa.Call, fv *Val) bool {
+	if len(vc.funcCands) == 0 {
+		return false
+	}
+	cc := ins.Common()
+	var ids []int
+	for id, f := range vc.funcCands {
+		if types.Identical(f.Signature, cc.Signature()) {
+			ids = append(ids, id)
+		}
+	}
+	if len(ids) == 0 {
+		return false
+	}
+	sort.Ints(ids)
+	vc.oblige("safety.nil", vc.cur.pc, sNot(sEq(fv.C[0], "0")), ins.Pos(), "call of nil function value")
+	var args []*Val
+	for _, a := range cc.Args {
+		args = append(args, vc.val(a))
+	}
+	pc0 := vc.cur.pc
+	pre := vc.cur.heap.clone()
+	var conds []string
+	var heaps []*Heap
+	var results []*Val
+	for _, id := range ids {
+		guard := sEq(fv.C[0], fmt.Sprint(id))
+		vc.cur.heap = pre.clone()
+		vc.cur.pc = vc.define("pc_fv", "Bool", sAnd(pc0, guard))
+		vc.callFunction(ins, vc.funcCands[id], args)
+		conds = append(conds, guard)
+		heaps = append(heaps, vc.cur.heap)
+		results = append(results, vc.vals[ins])
+	}
+	vc.cur.heap = pre.clone()
+	vc.cur.pc = pc0
+	vc.havocAll(vc.cur.heap, nil)
+	heaps = append(heaps, vc.cur.heap)
+	results = append(results, vc.resultVal(ins, vc.cur.heap))
+	vc.note("call through function value split over %d known functions (else havoc)", len(ids))
+	vc.cur.heap = vc.mergeHeaps(conds, heaps)
+	vc.cur.pc = pc0
+	last := results[len(results)-1]
+	switch last.K {
+	case KUnit:
+		vc.vals[ins] = last
+	case KTuple:
+		out := &Val{K: KTuple, T: last.T}
+		for i := range last.Elems {
+			var vs []*Val
+			for _, r := range results {
+				vs = append(vs, r.Elems[i])
+			}
+			out.Elems = append(out.Elems, vc.iteVals(conds, vs, last.Elems[i].T))
+		}
+		vc.vals[ins] = out
+	default:
+		vc.vals[ins] = vc.iteVals(conds, results, last.T)
+	}
 	return true
 }
